@@ -382,8 +382,8 @@ class Exec:
         m = re.match(r"^([\w:]+?)(?:::<[^(]*>)?::(\w+)\((.*)\)$", rv)
         if m and m.group(2)[0].isupper():
             return ("variant", m.group(1).split("::")[-1], m.group(2), [self.operand(env, x) for x in split_top(m.group(3))])
-        # C-like enum variant
-        m = re.match(r"^([\w:]+)::(\w+)$", rv)
+        # C-like enum variant / unit variant of a data-carrying enum (possibly with generic arguments: `E::<'_>::V`)
+        m = re.match(r"^([\w:]+?)(?:::<[^>]*>)?::(\w+)$", rv)
         if m:
             v = self.clike(m.group(1), m.group(2))
             if v:
